@@ -317,6 +317,8 @@ func ApplyImpl(pool []px.Value, o Op) (res px.Value, errClass string) {
 		panic(badType{})
 	case "HashNew", "MapEntries":
 		return applyX(pool, o), ""
+	case "Access":
+		return applyA(pool, o), ""
 	case "AsArray":
 		switch x := pool[o.R].(type) {
 		case *types.Hash:
